@@ -243,7 +243,8 @@ run_cmd do
                 self.broken.append('theorem missing: ' + n)
 
     def driver(self):
-        return os.path.join(LEAN, '.lake', 'build', 'bin', 'lbzdrv')
+        return os.environ.get('LBZDRV') or os.path.join(
+            LEAN, '.lake', 'build', 'bin', 'lbzdrv')
 
     # --------------------------------------------------------------- C build
     def cc(self, name, sources, flags=(), asan=True, ndebug=False, cxx=False,
